@@ -57,6 +57,11 @@ type kvElection struct {
 	ctx    context.Context
 	cancel context.CancelFunc
 
+	// ctxForLog mirrors ctx for readers that do not hold mu: background
+	// goroutines, timers and API callers only need the election context to
+	// pick log fields out of it. ctx itself is read and written under mu.
+	ctxForLog atomic.Pointer[context.Context]
+
 	// termCancel ends the context of the current leadership term (guarded by mu).
 	termCancel context.CancelFunc
 
@@ -206,6 +211,8 @@ func (e *kvElection) Start(ctx context.Context) error {
 	}
 
 	e.ctx, e.cancel = context.WithCancel(ctx)
+	ctxCopy := e.ctx
+	e.ctxForLog.Store(&ctxCopy)
 
 	if e.connectionMonitor != nil {
 		if err := e.connectionMonitor.Start(ctx); err != nil {
@@ -319,6 +326,15 @@ func (e *kvElection) attemptAcquireWithRetry(ctx context.Context) {
 	}
 }
 
+// logCtx returns the election context for logging purposes (nil before Start
+// and after StopWithContext). Safe to call without holding mu.
+func (e *kvElection) logCtx() context.Context {
+	if p := e.ctxForLog.Load(); p != nil {
+		return *p
+	}
+	return nil
+}
+
 // stopped reports whether the election has been stopped (or never started).
 // Background goroutines that are not tracked by the wait group check it
 // before issuing a new store operation, so that nothing new is sent once
@@ -362,7 +378,7 @@ func (e *kvElection) attemptAcquire() error {
 	if err != nil {
 		log := e.getLogger()
 		log.Error("acquire_failed",
-			append(e.logWithContext(e.ctx),
+			append(e.logWithContext(e.logCtx()),
 				zap.Error(err),
 				zap.String("error_type", "marshal_error"),
 			)...,
@@ -384,7 +400,7 @@ func (e *kvElection) attemptAcquire() error {
 
 		log := e.getLogger()
 		log.Debug("acquire_failed",
-			append(e.logWithContext(e.ctx),
+			append(e.logWithContext(e.logCtx()),
 				zap.Error(err),
 				zap.String("error_type", classifyErrorType(err)),
 			)...,
@@ -396,7 +412,7 @@ func (e *kvElection) attemptAcquire() error {
 
 	log := e.getLogger()
 	log.Info("acquire_success",
-		append(e.logWithContext(e.ctx),
+		append(e.logWithContext(e.logCtx()),
 			zap.String("token", token),
 			zap.Uint64("revision", rev),
 		)...,
@@ -454,7 +470,7 @@ func (e *kvElection) becomeLeader(token string, rev uint64) {
 
 	log := e.getLogger()
 	log.Info("state_transition",
-		append(e.logWithContext(e.ctx),
+		append(e.logWithContext(e.logCtx()),
 			zap.String("from_state", fromState),
 			zap.String("to_state", StateLeader),
 			zap.String("token", token),
@@ -482,7 +498,7 @@ func (e *kvElection) becomeLeader(token string, rev uint64) {
 
 	if onPromote := e.onPromote; onPromote != nil {
 		log.Info("leader_promoted",
-			append(e.logWithContext(e.ctx),
+			append(e.logWithContext(e.logCtx()),
 				zap.String("token", token),
 			)...,
 		)
@@ -493,7 +509,7 @@ func (e *kvElection) becomeLeader(token string, rev uint64) {
 				if r := recover(); r != nil {
 					log := e.getLogger()
 					log.Error("onpromote_callback_panic",
-						append(e.logWithContext(e.ctx),
+						append(e.logWithContext(e.logCtx()),
 							zap.Any("panic", r),
 						)...,
 					)
@@ -546,7 +562,7 @@ func (e *kvElection) attemptPriorityTakeover(payloadBytes []byte) error {
 
 	log := e.getLogger()
 	log.Warn("priority_takeover_success",
-		append(e.logWithContext(e.ctx),
+		append(e.logWithContext(e.logCtx()),
 			zap.String("previous_leader", currentPayload.ID),
 			zap.Int("previous_priority", currentPayload.Priority),
 			zap.Int("our_priority", e.cfg.Priority),
@@ -621,7 +637,7 @@ func (e *kvElection) becomeFollowerLocked() bool {
 
 	log := e.getLogger()
 	log.Info("state_transition",
-		append(e.logWithContext(e.ctx),
+		append(e.logWithContext(e.logCtx()),
 			zap.String("from_state", fromState),
 			zap.String("to_state", StateFollower),
 		)...,
@@ -629,11 +645,12 @@ func (e *kvElection) becomeFollowerLocked() bool {
 
 	if e.ctx != nil && e.ctx.Err() == nil && !e.watcherRunning.Load() {
 		e.watcherRunning.Store(true)
+		watchCtx := e.ctx
 		e.wg.Add(1)
 		go func() {
 			defer e.watcherRunning.Store(false)
 			defer e.wg.Done()
-			e.watchLoop(e.ctx)
+			e.watchLoop(watchCtx)
 		}()
 	}
 
@@ -664,7 +681,7 @@ func (e *kvElection) runOnDemote(reason string) {
 	if onDemote != nil {
 		log := e.getLogger()
 		log.Info("leader_demoted",
-			append(e.logWithContext(e.ctx),
+			append(e.logWithContext(e.logCtx()),
 				zap.String("reason", reason),
 			)...,
 		)
@@ -714,7 +731,7 @@ func (e *kvElection) Stop() error {
 
 	log := e.getLogger()
 	log.Info("election_stopped",
-		append(e.logWithContext(e.ctx),
+		append(e.logWithContext(e.logCtx()),
 			zap.Bool("was_leader", wasLeader),
 		)...,
 	)
@@ -827,6 +844,7 @@ func (e *kvElection) StopWithContext(ctx context.Context, opts StopOptions) erro
 
 	e.mu.Lock()
 	e.ctx = nil
+	e.ctxForLog.Store(nil)
 	e.mu.Unlock()
 
 	log := e.getLogger()
